@@ -86,7 +86,7 @@ Proof.
   intros Hs Hi Hy. apply in_flat_map. destruct s as [ls|l]; cbn [seq_items refs_seq] in *.
   - injection Hs as ->. exists i. split; [assumption|]. now apply fpn_mono.
   - destruct (body_at h l) as [[]|] eqn:E; try discriminate. injection Hs as ->.
-    exists l. split; [auto|]. eapply fpn_step; [|exact Hy]. unfold refs_at. rewrite E. exact Hi.
+    exists l. split; [now left|]. eapply fpn_step; [|exact Hy]. unfold refs_at. rewrite E. exact Hi.
 Qed.
 Lemma abs_tx_agree h h' l : agree_on (fp h l) h h' -> abs_tx h' l = abs_tx h l.
 Proof.
@@ -114,10 +114,10 @@ Theorem abs_frame h h' x : agree_on (fp h x) h h' -> abs h' x = abs h x.
 Proof.
   intros A. unfold abs. rewrite (core_body h h' x) by (apply A, fpn_self).
   destruct (body_at h x) as [[]|]; try reflexivity.
-  - rewrite abs_outpoint_agree; [reflexivity|apply A, fpn_self].
-  - rewrite abs_txin_agree; [reflexivity|]. intros y Hy. apply A. unfold fp. now do 2 apply fpn_mono.
-  - rewrite abs_txout_agree; [reflexivity|apply A, fpn_self].
-  - rewrite abs_tx_agree; [reflexivity|exact A].
+  - rewrite (abs_outpoint_agree h h' x); [reflexivity|apply A, fpn_self].
+  - rewrite (abs_txin_agree h h' x); [reflexivity|]. intros y Hy. apply A. unfold fp. now do 2 apply fpn_mono.
+  - rewrite (abs_txout_agree h h' x); [reflexivity|apply A, fpn_self].
+  - rewrite (abs_tx_agree h h' x); [reflexivity|exact A].
 Qed.
 Lemma fp_frame h h' x : agree_on (fp h x) h h' -> fp h' x = fp h x.
 Proof. apply fpn_agree. Qed.
@@ -310,10 +310,10 @@ Proof.
     + intros E M Hr. eapply ext_mut_at; eauto. eapply wf_imm; eauto.
   - intros l o' g. rewrite get_alloc. destruct (decide (l = h_next h)) as [->|N].
     + intros [= <-]. congruence.
-    + intros E M Hg. rewrite (on_abs_eq _ h) by (apply AB; eapply wf_lt; eauto). eapply wf_ghash; eauto.
+    + intros E M Hg. rewrite (on_abs_eq h) by (apply AB; eapply wf_lt; eauto). eapply wf_ghash; eauto.
   - intros l o' z. rewrite get_alloc. destruct (decide (l = h_next h)) as [->|N].
     + intros [= <-]. congruence.
-    + intros E M Hz. rewrite (on_abs_eq _ h) by (apply AB; eapply wf_lt; eauto). eapply wf_phash; eauto.
+    + intros E M Hz. rewrite (on_abs_eq h) by (apply AB; eapply wf_lt; eauto). eapply wf_phash; eauto.
 Qed.
 
 (* --- set_body on an object of a mutable class --- *)
@@ -357,11 +357,11 @@ Proof.
     + apply (wf_imm h W).
   - intros l' o' g. rewrite (get_set_body h l b o l' E). destruct (decide (l' = l)) as [->|].
     + intros [= <-]. simpl. congruence.
-    + intros E' M' Hg. rewrite (on_abs_eq _ h); [eapply wf_ghash; eauto|].
+    + intros E' M' Hg. rewrite (on_abs_eq h); [eapply wf_ghash; eauto|].
       apply frozen_abs; auto. apply mut_at_get. eauto.
   - intros l' o' z. rewrite (get_set_body h l b o l' E). destruct (decide (l' = l)) as [->|].
     + intros [= <-]. simpl. congruence.
-    + intros E' M' Hz. rewrite (on_abs_eq _ h); [eapply wf_phash; eauto|].
+    + intros E' M' Hz. rewrite (on_abs_eq h); [eapply wf_phash; eauto|].
       apply frozen_abs; auto. apply mut_at_get. eauto.
 Qed.
 
@@ -400,15 +400,15 @@ Proof.
   - intros l o' r E Hr. destruct (Hc l o' E) as (o & E0 & Co & _). rewrite N.
     inversion Co as [[Cm Cb]]. rewrite Cb in Hr. eapply wf_refs; eauto.
   - intros l o' its E B. destruct (Hc l o' E) as (o & E0 & Co & _). inversion Co as [[Cm Cb]].
-    rewrite Cm. eapply wf_list; eauto. congruence.
+    rewrite Cm. apply (wf_list h W l o its); [exact E0|congruence].
   - intros l o' r E M Hr. destruct (Hc l o' E) as (o & E0 & Co & _). inversion Co as [[Cm Cb]].
     rewrite MA. eapply wf_imm; eauto; congruence.
   - intros l o' g E M Hg. destruct (Hc l o' E) as (o & E0 & Co & [Gs|(g' & Gs & Gv)] & _); inversion Co as [[Cm Cb]];
-      rewrite (on_abs_eq _ h) by (apply same_cores_abs; split; auto).
+      rewrite (on_abs_eq h) by (apply same_cores_abs; split; auto).
     + eapply wf_ghash; eauto; congruence.
     + congruence.
   - intros l o' z E M Hz. destruct (Hc l o' E) as (o & E0 & Co & _ & [Ps|(z' & Ps & Pv)]); inversion Co as [[Cm Cb]];
-      rewrite (on_abs_eq _ h) by (apply same_cores_abs; split; auto).
+      rewrite (on_abs_eq h) by (apply same_cores_abs; split; auto).
     + eapply wf_phash; eauto; congruence.
     + congruence.
 Qed.
